@@ -144,9 +144,18 @@ class Run:
         names = []   # fully qualified
         for m in prop_modules:
             src = open(os.path.join(common.LEAN, "PatchModel", "Props", m + ".lean")).read()
-            ns = re.search(r"^namespace\s+(\S+)", src, re.M)
-            pre = (ns.group(1) + ".") if ns else ""
-            names += [pre + n for n in re.findall(r"^theorem\s+([A-Za-z0-9_'.]+)", src, re.M)]
+            # fully qualified names: follow `namespace X` / `end X` (nested namespaces hold the non-vacuity examples)
+            stack = []
+            for line in src.splitlines():
+                m = re.match(r"^namespace\s+(\S+)", line)
+                if m:
+                    stack.append(m.group(1)); continue
+                m = re.match(r"^end\s+(\S+)", line)
+                if m and stack and stack[-1] == m.group(1):
+                    stack.pop(); continue
+                m = re.match(r"^(?:private\s+|protected\s+)?theorem\s+([A-Za-z0-9_'.]+)", line)
+                if m:
+                    names.append(".".join(stack + [m.group(1)]))
         self.obligations = names
         if not ok:
             self.violations.append({"kind": "obligation-broken", "theorem": ",".join(mods), "no_input": True,
